@@ -19,6 +19,20 @@ CLAIMED = {
         technique="Lean 4 proof (invariant by induction over operations) + differential correspondence model vs code",
         design="DESIGN.md section 5, C15",
     ),
+    "C08": dict(
+        engine="gpr",
+        text="Lean 4 theorems over the executable rule model GPRM (eval is the and/or value and depends only on the rule's genes; "
+             "monotone in the knock-out set; token-level print/parse round trip for every well-formed tree by mutual induction; "
+             "_GeneRemover returns a rule equivalent to the old one with the removed genes absent, and drops a rule only when it is "
+             "unsatisfiable; renaming commutes with eval; decide-checked sanity of the escape tables regenerated from gene.py), tied to "
+             "the code by correspondence of GPRM.fromString/remove with GPR.from_string/_GeneRemover (tree, genes, text, full truth table) "
+             "and direct oracles for to_string/copy/pickle/sympy round trips, == and remove_genes.",
+        note="Trusted: Lean kernel, standard axioms; translator harness/translate_gpr.py (ast only); Python's ast.parse, re and sympy are "
+             "external (compared by truth table per generated rule). Character-level escaping and the tokenizer are executable in the model "
+             "and checked by correspondence, not proved; non-ASCII ids and the parser nesting limit are outside the model.",
+        technique="Lean 4 proof (mutual structural induction over rule trees) + generated tables + differential correspondence",
+        design="DESIGN.md section 5, C08",
+    ),
 }
 
 PENDING_REASON = "check under construction in this session (see DESIGN.md section 9 build order); not claimed until its Lean model, theorems and correspondence exist"
@@ -55,6 +69,8 @@ def main():
         "engines": [
             {"name": "dictlist", "path": "harness/c15.py", "serves_properties": ["C15"],
              "kind_free_text": "Lean model DLM + theorems (lean/CobraModel/{Model,Lemmas,Props}) and op-sequence correspondence against cobra.core.DictList"},
+            {"name": "gpr", "path": "harness/c08.py", "serves_properties": ["C08"],
+             "kind_free_text": "Lean model GPRM (rule trees, parser, remover) + generated escape tables + correspondence against cobra.core.gene.GPR"},
         ],
         "checks": checks,
         "notes": "Every check: (1) lake build of the property's theorems + axiom audit, (2) correspondence of the Lean model with the "
